@@ -320,14 +320,33 @@ def clause_text(n: Node, st: Style) -> str:
     return " ".join(parts) + "."
 
 
-def render(roots: list[Node], st: Optional[Style] = None) -> str:
+def sentence_nodes(roots: list[Node], inject: Optional[dict[int, list[Node]]] = None) -> list[Node]:
+    """all sentences of the copybook in source order, including injected 66/77/88 entries"""
+    out: list[Node] = []
+    inject = inject or {}
+    for root in roots:
+        for n in preorder(root):
+            out.append(n)
+            out += inject.get(id(n), [])
+    return out
+
+
+def entry_token(n: Node) -> str:
+    """`lvl,name,redef,occ,size` for the model (Drv.Cpy.parseEntry)"""
+    name = n.name if n.name not in (None, "FILLER") else "-"
+    size = "-" if n.is_group else str(n.width)
+    return f"{n.level},{name},{n.redefines or '-'},{occ_token(n)},{size}"
+
+
+def render(roots: list[Node], st: Optional[Style] = None, inject: Optional[dict[int, list[Node]]] = None) -> str:
     st = st or Style()
     lines: list[str] = []
     seq = 100
+    inject = inject or {}
     for root in roots:
         if st.comments:
             lines.append("      * generated record")
-        for n in preorder(root):
+        for n in [m for x in preorder(root) for m in [x] + inject.get(id(x), [])]:
             depth = 0 if n.level == 1 else min(8, 1 + (n.level // 5))
             body = (" " * (4 * depth if st.indent else 0)) + clause_text(n, st)
             chunks = wrap(body, 64)   # never reach column 72: a full line glues to the next one (D11/D28, see C12)
